@@ -98,6 +98,12 @@ std::thread_local! {
     /// a scheduling point that is no yield); set by the interpreter right before it touches the static
     static LZ_MODE: RefCell<String> = RefCell::new(String::from("yield"));
     static LZ_ATOM: std::cell::Cell<*const AtomicUsize> = std::cell::Cell::new(std::ptr::null());
+    /// atoms `tl0c` / `tl1c` (if the program declares them): the destructor of thread-local value k does an RMW on atom k
+    /// (a loom operation inside a thread-local destructor; C13 only: the reference semantics does not model it)
+    static TL_ATOMS: std::cell::Cell<[*const AtomicUsize; 2]> = std::cell::Cell::new([std::ptr::null(); 2]);
+    /// the shared state of the iteration that is running (weak: a thread-local value that touches an atomic from its
+    /// destructor keeps the state alive until then, nothing else does)
+    static CUR_SH: RefCell<std::sync::Weak<Sh>> = RefCell::new(std::sync::Weak::new());
 }
 fn stat_add(i: usize) -> usize {
     STAT.with(|s| s[i].fetch_add(1, StdOrd::SeqCst))
@@ -107,11 +113,15 @@ pub struct TlVal {
     cnt: std::cell::Cell<usize>,
     /// a leak-tracked allocation owned by the value: an instance that is never destroyed shows as a leak report
     _trk: loom::alloc::Track<()>,
+    /// keeps the atomics alive for the destructor (only when the program asks for a destructor that touches one)
+    keep: Option<SArc<Sh>>,
 }
 impl TlVal {
     fn new(k: usize) -> TlVal {
         stat_add(2 * k);
-        TlVal { k, cnt: std::cell::Cell::new(0), _trk: loom::alloc::Track::new(()) }
+        let wants = !TL_ATOMS.with(|t| t.get()[k]).is_null();
+        let keep = if wants { CUR_SH.with(|c| c.borrow().upgrade()) } else { None };
+        TlVal { k, cnt: std::cell::Cell::new(0), _trk: loom::alloc::Track::new(()), keep }
     }
     fn bump(&self) -> usize {
         let c = self.cnt.get();
@@ -122,6 +132,10 @@ impl TlVal {
 impl Drop for TlVal {
     fn drop(&mut self) {
         stat_add(2 * self.k + 1);
+        let a = TL_ATOMS.with(|t| t.get()[self.k]);
+        if !a.is_null() && self.keep.is_some() && !std::thread::panicking() {
+            unsafe { (*a).fetch_add(1, Ordering::SeqCst) };
+        }
         if self.k == 1 && !std::thread::panicking() {
             // the value is being destroyed with its thread: its key must report AccessError by now
             // (STAT[8]: try_with still succeeded, STAT[9]: AccessError)
@@ -358,6 +372,10 @@ impl Sh {
         }
         DROPS.with(|x| *x.borrow_mut() = drops);
         STAT.with(|s| for c in s.iter() { c.store(0, StdOrd::SeqCst); });
+        TL_ATOMS.with(|t| t.set([
+            match idx.get("tl0c") { Some(i) => atoms[*i].get() as *const AtomicUsize, None => std::ptr::null() },
+            match idx.get("tl1c") { Some(i) => atoms[*i].get() as *const AtomicUsize, None => std::ptr::null() },
+        ]));
         LZ_ATOM.with(|a| a.set(match idx.get("lzc") { Some(i) => atoms[*i].get() as *const AtomicUsize, None => std::ptr::null() }));
         LZ_CELLS.with(|c| {
             let mut c = c.borrow_mut();
@@ -480,6 +498,7 @@ pub fn run_main(prog: SArc<Prog>) {
         .iter()
         .any(|th| th.iter().any(|i| i.op == "unpark" && i.v == 1));
     let sh = SArc::new(Sh::new(prog));
+    CUR_SH.with(|c| *c.borrow_mut() = SArc::downgrade(&sh));
     if needs_main_handle {
         sh.th.get().insert(1, loom::thread::current());
     }
